@@ -64,9 +64,17 @@ class Check:
         self.seed = seed
         self.replay = replay
         self.t0 = time.time()
-        # one scratch directory per (property, tree under test): a mutation experiment with VERIF_REPO
-        # must not clobber the files of a run against /repo
-        self.build = os.path.join(BUILD, pid if REPO == "/repo" else pid + "@" + hashlib.sha1(REPO.encode()).hexdigest()[:8])
+        # one scratch directory per run: <property>[@<tree hash>].<process id>, so that overlapping runs of the
+        # same check (another seed, a mutation experiment with VERIF_REPO) never wipe each other's files.
+        # Directories of finished clean runs are removed in finish(); stale ones (crashed runs) after two hours.
+        self.build_name = pid if REPO == "/repo" else pid + "@" + hashlib.sha1(REPO.encode()).hexdigest()[:8]
+        self.build = os.path.join(BUILD, "%s.%d" % (self.build_name, os.getpid()))
+        try:
+            for d in glob.glob(os.path.join(BUILD, self.build_name + ".*")):
+                if os.path.isdir(d) and time.time() - os.path.getmtime(d) > 7200:
+                    shutil.rmtree(d, ignore_errors=True)
+        except OSError:
+            pass
         shutil.rmtree(self.build, ignore_errors=True)
         os.makedirs(self.build, exist_ok=True)
         self.obligations = []      # (name, ok:bool, detail)
@@ -427,4 +435,10 @@ class Check:
             "FAIL" if nviol else "OK", self.pid, self.tier, self.seed, ndis, nob, self.cases,
             len(self.hashes_nontrivial), len(unlisted), len(self.broken), wall), flush=True)
         self.log.close()
+        try:
+            shutil.copy(os.path.join(self.build, "check.log"), os.path.join(BUILD, self.build_name + ".last.log"))
+            if not nviol and not os.environ.get("VERIF_KEEP_BUILD"):
+                shutil.rmtree(self.build, ignore_errors=True)
+        except OSError:
+            pass
         return 1 if nviol else 0
